@@ -320,7 +320,7 @@ def build_cells(libdir, repo):
 
 
 # ===================================================================== programs
-UV = ['area', 'length', 'isvalid', 'issimple', 'isempty', 'npts', 'wkbhash', 'ngeoms', 'validreason', 'minclear']
+UV = ['area', 'length', 'isvalid', 'issimple', 'isempty', 'npts', 'wkbhash', 'ngeoms', 'validreason', 'minclear', 'extent', 'xmin', 'cdim', 'hasz']
 UG = ['buffer', 'hull', 'centroid', 'envelope', 'boundary', 'pos', 'makevalid', 'uunion', 'simplify', 'tpsimplify', 'delaunay', 'node', 'polygonize', 'linemerge',
       'normalize', 'reverse', 'mic', 'minrect', 'offset', 'densify']
 BV = ['intersects', 'contains', 'touches', 'within', 'covers', 'equals', 'disjoint', 'overlaps', 'crosses', 'relate', 'distance', 'hausdorff', 'equalsexact']
@@ -341,14 +341,33 @@ def gen_geom(rng, kind=None):
     return ('GeometryCollection', [scan.star(rng, cx, cy, 8, 5), scan.zigzag(rng, 6, cx, cy, 1, 2), ('Point', (round(cx, 3), round(cy, 3)))])
 
 
-def gen_program(rng, kind, nshared, nops, use_spq=False):
+FRESH_KINDS = ['point', 'zigzag', 'star', 'blobhole', 'points', 'lines', 'squares', 'collection', 'ring', 'emptycoll', 'emptymulti', 'emptyline']
+
+
+def first_use_ops(rng, nfresh):
+    """calls that may be the FIRST call ever made on a shared geometry: extent accessors, envelope-using predicates, distance, STRtree insertion,
+    prepared-geometry creation, validity, cloning, writing -- issued by every thread right after the barrier"""
+    ops = []
+    order = list(range(nfresh)); rng.shuffle(order)
+    for i in order:
+        f = 'F%d' % i; g = 'F%d' % rng.randrange(nfresh)
+        ops.append(rng.choice(['extent %s' % f, 'xmin %s' % f, 'intersects %s %s' % (f, g), 'disjoint %s %s' % (g, f), 'distance %s %s' % (f, g), 'tree %s' % f,
+                               'prepq %s %s' % (f, g), 'envelope P3 %s 0' % f, 'covers %s %s' % (f, g), 'isvalid %s' % f, 'area %s' % f, 'length %s' % f, 'clone P3 %s' % f,
+                               'wkbhash %s' % f, 'npts %s' % f, 'cdim %s' % f, 'hasz %s' % f, 'relate %s %s' % (f, g), 'equalsexact %s %s' % (f, g), 'hull P3 %s 0' % f, 'isempty %s' % f]))
+    return ops
+
+
+def gen_program(rng, kind, nshared, nops, use_spq=False, nfresh=0):
     """kind: private | reader | churn | mixed -> list of op strings"""
     ops = []
     nslots = 4
+    if nfresh and kind != 'churn':
+        ops += first_use_ops(rng, nfresh)
     for i in range(2):
         ops.append('wkb P%d %s' % (i, scan.hexwkb(gen_geom(rng))))
     live = [0, 1]
     def operand(allow_shared):
+        if allow_shared and nfresh and rng.random() < 0.2: return 'F%d' % rng.randrange(nfresh)
         if allow_shared and nshared and rng.random() < (0.75 if kind == 'reader' else 0.4): return 'S%d' % rng.randrange(nshared)
         return 'P%d' % rng.choice(live)
     sh_ok = kind in ('reader', 'mixed')
@@ -406,10 +425,21 @@ def gen_round(rng, nthreads, nops, use_spq=False, cold=False):
     for t in range(nthreads):
         kinds.append(rng.choice(['private', 'reader', 'mixed', 'churn'] if nshared else ['private', 'private', 'churn', 'mixed']))
     if nthreads >= 2 and 'churn' not in kinds: kinds[-1] = 'churn'
-    progs = [gen_program(rng, k, nshared, nops, use_spq) for k in kinds]
-    txt = 'shared %s\nseed %d\n%s' % (' '.join(scan.hexwkb(g) for g in shared), rng.randrange(1 << 30), 'cold\n' if cold else '')
+    # fresh shared geometries: one of every geometry class over the rounds, handed to the threads without ever having been queried
+    nfresh = 0 if cold else rng.choice([2, 3, 4])
+    fkinds = [rng.choice(FRESH_KINDS) for _ in range(nfresh)]
+    def fgeom(k):
+        if k == 'point': return ('Point', (round(rng.uniform(-5, 5), 3), round(rng.uniform(-5, 5), 3)))
+        if k == 'ring': return ('LineString', scan.blob(rng, 0, 0, rng.randint(6, 30), 8)[1][0])
+        if k == 'emptycoll': return ('GeometryCollection', [])
+        if k == 'emptymulti': return (rng.choice(['MultiPolygon', 'MultiLineString', 'MultiPoint']), [])
+        if k == 'emptyline': return ('LineString', [])
+        return gen_geom(rng, k)
+    fresh = [(rng.choice('btck') if k in ('zigzag', 'ring') else rng.choice('btc') if k.startswith('empty') or k == 'point' else rng.choice('btchue'), fgeom(k)) for k in fkinds]
+    progs = [gen_program(rng, k, nshared, nops, use_spq, nfresh) for k in kinds]
+    txt = 'shared %s\nfresh %s\nseed %d\n%s' % (' '.join(scan.hexwkb(g) for g in shared), ' '.join('%s:%s' % (m, scan.hexwkb(g)) for m, g in fresh), rng.randrange(1 << 30), 'cold\n' if cold else '')
     txt += ''.join('thread %s\n' % ' ; '.join(p) for p in progs)
-    return dict(nthreads=nthreads, kinds=kinds, nshared=nshared, text=txt, progs=progs, use_spq=use_spq, cold=cold)
+    return dict(nthreads=nthreads, kinds=kinds, nshared=nshared, text=txt, progs=progs, use_spq=use_spq, cold=cold, fresh=['%s/%s' % (k, m) for k, (m, _) in zip(fkinds, fresh)])
 
 
 # ===================================================================== ThreadSanitizer reports
@@ -519,6 +549,15 @@ def run(ctx):
     syms = ' '.join(r['sym'] for r in rows)
     miss = [s for s in source_statics(src) if not s['const'] and ('::' + s['var']) not in syms]
     ctx.notes['source_statics_without_symbol'] = ['%s in %s (%s)' % (s['var'], s['func'], s['where']) for s in miss][:40]
+    lz = lazy_members(src, REPO)
+    basef = os.path.join(ROOT, 'gen/corpus/C13_lazy_members.json')
+    base = {(b['cls'], b['member']) for b in json.load(open(basef))} if os.path.exists(basef) else set()
+    ctx.notes['mutable_members_written_by_const_methods (geometry classes)'] = lz
+    for x in lz:
+        if (x['cls'], x['member']) not in base:
+            ctx.broken.append(dict(kind='inventory', name='lazily written member %s::%s' % (x['cls'], x['member']),
+                                   detail='`%s` of %s is written by the const member function(s) %s: a read-only call on a geometry shared between threads writes it '
+                                          '(not in gen/corpus/C13_lazy_members.json, the members reviewed on the unchanged tree)' % (x['decl'], x['cls'], ', '.join(x['writers']))))
     ok_coq, ax = ctx.coq_build('Properties_C13')
     for r in bad:
         k = next((k for k in known if k['key']['cell'] == r['sym']), None)
@@ -620,6 +659,13 @@ def run(ctx):
             ctx.broken.append(dict(kind='generator', name='distribution', detail='fewer than 20 rounds share a prepared geometry'))
         ctx.notes['rounds_sharing_a_prepared_geometry'] = sum(1 for r in rounds if r.get('use_spq'))
         ctx.notes['cold_start_rounds'] = sum(1 for r in rounds if r.get('cold'))
+        fk = {}
+        for r in rounds:
+            for x in r.get('fresh', []): fk[x] = fk.get(x, 0) + 1
+        ctx.notes['fresh_shared_geometries (class/creation: b=WKB reader t=WKT reader c=clone k=constructor h/u/e=result of hull/buffer/envelope)'] = fk
+        for k in FRESH_KINDS:
+            if not any(x.startswith(k + '/') for x in fk):
+                ctx.broken.append(dict(kind='generator', name='distribution', detail='no round shares a never-queried geometry of kind %s' % k))
         if sum(1 for r in rounds if r.get('cold')) < 20:
             ctx.broken.append(dict(kind='generator', name='distribution', detail='fewer than 20 cold-start rounds (first use of process-wide objects concurrent in the workers)'))
         for need in ('churn', 'reader', 'private'):
@@ -630,3 +676,39 @@ def run(ctx):
             if b['kind'] in ('proof', 'correspondence', 'inventory'): b['resolved'] = True
     for r in rounds[:2]:
         ctx.sample(r['text'][:400])
+
+
+# ===================================================================== lazily written `mutable` members of the geometry classes (heap state, not in the ELF inventory)
+def lazy_members(src, repo):
+    """(class, member) pairs declared `mutable` in include/geos/geom/*.h that a CONST member function of the class writes (assignment, ++/--, compound
+    assignment, non-const-looking member call, or passing the member to a function): caches filled on first use, i.e. writes performed by read-only calls.
+    Whether such a write is guarded (flag set at construction) is not decidable here: new pairs are reported, ThreadSanitizer decides."""
+    out = []
+    gdir = os.path.join(repo, 'include', 'geos', 'geom')
+    for f in sorted(os.listdir(gdir)):
+        if not f.endswith('.h'): continue
+        cls = f[:-2]
+        txt = scan.strip_source(open(os.path.join(gdir, f), errors='replace').read())
+        for m in re.finditer(r'\bmutable\b([^;{}()]*?)\b([A-Za-z_]\w*)\s*(?:=[^;]*)?;', txt):
+            name, decl = m.group(2), ('mutable' + m.group(1) + m.group(2)).strip()
+            if 'atomic' in decl or 'mutex' in decl: continue
+            writers = set()
+            for fn in src.funcs:
+                if fn['cls'] != cls: continue
+                T = fn['T']; a, b = fn['body']
+                h = a - 1; d = 0
+                while h > 0 and not (T[h - 1][0] in (';', '}', '{') and d == 0) and a - h < 120:
+                    h -= 1
+                head = [t for t, _ in T[h:a - 1]]
+                if ')' not in head or 'const' not in head[len(head) - head[::-1].index(')'):]: continue     # not a const member function
+                for j in range(a, b):
+                    if T[j][0] != name or T[j - 1][0] in ('.', '->'): continue
+                    t1 = T[j + 1][0] if j + 1 < b else ''; t2 = T[j + 2][0] if j + 2 < b else ''; t3 = T[j + 3][0] if j + 3 < b else ''
+                    p1 = T[j - 1][0]
+                    if (t1 == '=' and t2 != '=' and p1 not in ('=', '!', '<', '>')) or (t1 in '+-*/%&|^' and t1 and t2 == '=') or (t1, t2) in (('+', '+'), ('-', '-')) \
+                            or (t1 in ('.', '->') and t3 == '=' and (T[j + 4][0] if j + 4 < b else '') != '=') or (t1 in ('.', '->') and t3 == '(' and t2 not in CONST_METHODS) \
+                            or (p1 in ('(', ',') and t1 in (')', ',') and j - 2 >= a and T[j - 2][0] not in ('if', 'while', 'return', 'sizeof')):
+                        writers.add(fn['name'])
+            if writers:
+                out.append(dict(cls=cls, member=name, decl=' '.join(decl.split()), writers=sorted(writers)))
+    return out
